@@ -25,6 +25,14 @@ for d in sorted(glob.glob(os.path.join(VERIF, "seeded", "C*"))):
             subprocess.run(["/venv/bin/python", os.path.join(root, "tools", "run_seeded.py"), patch, "--json", out], capture_output=True, text=True)
             r = json.load(open(out))
             res[tag] = {k: {"exit": v["exit"], "rules": v["rules"]} for k, v in r.items() if v["exit"] != 0}
+        # "at_collection" freezes what the checks said the first time this change was evaluated
+        # (before any strengthening prompted by it); it is never overwritten.
+        prev = meta.get("lokysa", {})
+        if "at_collection" in prev:
+            res["at_collection"] = prev["at_collection"]
+        else:
+            head = subprocess.run(["git", "-C", VERIF, "rev-parse", "--short", "HEAD"], capture_output=True, text=True).stdout.strip()
+            res["at_collection"] = {"verif_commit": head, "result": res.get("current", {})}
         meta["lokysa"] = res
         json.dump(meta, open(meta_p, "w"), indent=1)
     res = meta.get("lokysa", {})
@@ -32,8 +40,8 @@ for d in sorted(glob.glob(os.path.join(VERIF, "seeded", "C*"))):
         if not x:
             return "not detected"
         return "; ".join(f"{k}: {'/'.join(v['rules']) or ('ANALYSIS-ERROR' if v['exit'] == 2 else '?')}" for k, v in sorted(x.items()))
-    rows.append((sid, meta.get("property", sid[:3]), (meta.get("summary") or "")[:160].replace("|", "/"), fmt(res.get("pre_seed")), fmt(res.get("current"))))
-print("| seed | property | change | first-run checks (tag pre-seed) | current checks |")
-print("|---|---|---|---|---|")
+    rows.append((sid, meta.get("property", sid[:3]), (meta.get("summary") or "")[:160].replace("|", "/"), fmt(res.get("pre_seed")), fmt((res.get("at_collection") or {}).get("result")), fmt(res.get("current"))))
+print("| seed | property | change | checks before any seed (tag pre-seed) | checks when the change was collected | current checks |")
+print("|---|---|---|---|---|---|")
 for r in rows:
     print("| " + " | ".join(r) + " |")
